@@ -151,7 +151,14 @@ def _services(tns):
     return [type("Svc", (Service,), ns)]
 
 
+def _base_kind(kind):
+    """'soapl' is the soap application with a listener on the documented wsdl_document_built
+    event that edits the document tree before it is serialized"""
+    return "soap" if kind == "soapl" else kind
+
+
 def _protocols(kind):
+    kind = _base_kind(kind)
     from spyne.protocol.xml import XmlDocument
     from spyne.protocol.soap import Soap11
     from spyne.protocol.json import JsonDocument
@@ -178,7 +185,15 @@ def build_app(kind):
     inp, outp = _protocols(kind)
     app = Application(_services(tns), tns=tns, name="C12App", in_protocol=inp,
                       out_protocol=outp)
-    return WsgiApplication(app)
+    wsgi = WsgiApplication(app)
+    if kind == "soapl":
+        def _edit(wsdl):
+            from lxml import etree
+            doc = etree.SubElement(wsdl.root_elt, "{http://schemas.xmlsoap.org/wsdl/}documentation")
+            doc.text = "edited by a wsdl_document_built listener"
+            wsdl.root_elt.insert(0, doc)
+        wsgi.doc.wsdl11.event_manager.add_listener("wsdl_document_built", _edit)
+    return wsgi
 
 
 # ---------------------------------------------------------------------------------------
@@ -249,6 +264,7 @@ _HTTP_QUERIES = {
 def make_environ(kind, rid):
     """fresh environ (fresh wsgi.input) for request `rid` against application kind"""
     tns = tns_of(kind)
+    kind = _base_kind(kind)
     if rid == "wsdl":
         return drive.environ(method="GET", path="/svc", query="wsdl", content_type=None,
                              content_length=None)
@@ -278,6 +294,7 @@ MIXES2 = {
     "soap:rpc+invalid": ("soap", ["greet1", "bad_len"]),
     "soap:invalid+invalid": ("soap", ["bad_int", "bad_len"]),
     "soap:same-method": ("soap", ["echo1", "echo2"]),
+    "soapl:wsdl+wsdl": ("soapl", ["wsdl", "wsdl"]),
     "xml:wsdl+invalid": ("xml", ["wsdl", "bad_int"]),
     "xml:rpc+rpc-distinct": ("xml", ["echo1", "order1"]),
     "xml:rpc+invalid": ("xml", ["greet1", "bad_int"]),
